@@ -20,7 +20,13 @@ type Value interface{}
 type Str struct{ b []*Term }                    // string with concrete length
 type Cell struct {
 	v      Value
-	frozen bool // part of an object graph shared between paths (a cached parsed Program): stores are violations
+	frozen bool  // part of an object graph shared between paths (a cached parsed Program): stores are recorded
+	owner  *Exec // the worker that froze the cell (keeps the undo log)
+}
+
+type undoEntry struct {
+	c   *Cell
+	old Value
 }
 type StructObj struct{ f []Obj }                // addressable struct
 type ArrayObj struct{ e []Obj }                 // addressable array
@@ -96,12 +102,15 @@ type Exec struct {
 	nvars                 int
 	failWhere             string
 	pathFlagged           bool // a violation or known finding was met on this path
+	undo                  []undoEntry
+	frozenWrites          int
 	pathCompleted         bool // the harness returned normally on this path
 	parseCache            map[string]Value
 	files                 map[*StructObj]*fileModel
 	fileSeq               int
 	waitResult            Value
 	pipeOutput            []*Term
+	pipeWriteFails        bool
 	inCachedParse         bool
 	solver                *Solver
 	// current path
@@ -348,7 +357,7 @@ func (x *Exec) concretize(t *Term, lo, hi int, signed bool) int {
 	if !signed {
 		inRange = bvcmp("bvule", t, BV(uint64(int64(hi)), t.sort.Width))
 	}
-	for len(found) <= 64 {
+	for len(found) <= 300 {
 		sat, m, unk := x.solver.askValue(x.pc, And(inRange, excl), t)
 		if unk {
 			panic(abortPath{"solver unknown while enumerating the values of a symbolic size", false})
@@ -363,8 +372,8 @@ func (x *Exec) concretize(t *Term, lo, hi int, signed bool) int {
 		found = append(found, v)
 		excl = And(excl, Not(bvcmp("=", t, BV(m, t.sort.Width))))
 	}
-	if len(found) > 64 {
-		panic(abortPath{"a symbolic size or index takes more than 64 values (not bounded by the harness)", false})
+	if len(found) > 300 {
+		panic(abortPath{"a symbolic size or index takes more than 300 values (not bounded by the harness)", false})
 	}
 	if len(found) == 0 {
 		panic(abortPath{"no feasible outcome", true})
@@ -519,8 +528,11 @@ func load(o Obj) Value {
 func store(o Obj, v Value) {
 	switch o := o.(type) {
 	case *Cell:
-		if o.frozen {
-			panic(panicPath{"write to an object of a parsed Program that is shared (the Program must be immutable once parsed)"})
+		if o.frozen && o.owner != nil {
+			// a store into the shared Program: remember the old value (restored when the path ends, so the
+			// mutation stays local to this path) and let execution continue so that its effects can be observed
+			o.owner.undo = append(o.owner.undo, undoEntry{o, o.v})
+			o.owner.frozenWrites++
 		}
 		o.v = v
 	case *StructObj:
